@@ -189,6 +189,12 @@ class ResolverMixin:  # pylint: disable=too-few-public-methods
             # process object override
             # get override name
             override_name = new_objects[obj_name].qualifiers["override"].value
+            if override_name is None:
+                raise CIMError(
+                    CIM_ERR_INVALID_PARAMETER,
+                    _format("Invalid new_class {0} {1!A} in class {2!A}. "
+                            "Its Override qualifier has no value.",
+                            type_str, obj_name, new_class.classname))
             if isinstance(new_obj, (CIMParameter, CIMProperty)):
                 if new_obj.type == 'reference':
                     if override_name.lower() != obj_name.lower():
